@@ -461,7 +461,7 @@ class EffectsEngine(Engine):
     level = "exploration"
     tiers = {
         "quick": {"runs": 6000, "wall": 170},
-        "thorough": {"runs": 400000, "wall": 1800},
+        "thorough": {"runs": 150000, "wall": 1800},
     }
     components_real = [
         "every refactoring class under rope.refactor (rename, move, extract, inline, change_signature, "
